@@ -886,6 +886,8 @@ structure Facts where
   flushesAtCountBound : Tri
   /-- readNextBlock takes a zero-filled tail for the end of the data -/
   zeroTailIsEOF : Tri
+  /-- `WriteBuffer.Restore` puts the entries back in front of what is buffered (the rollback of the model restores the order) -/
+  restorePrepends : Tri
   /-- `FileWriter.WriteEntry` returns the error of the flush it triggers (the entry stays queued all the same) -/
   writeEntryReportsFlushError : Tri
   /-- `FileWriter.Close` leaves the file open when it fails (the writer the chronicler keeps stays usable) -/
@@ -935,7 +937,7 @@ def modelApplies (f : Facts) : Bool :=
   f.truncatesTornTail != .unknown && f.clearsBufferBeforeWrite != .unknown && f.rollsBackFailedBlock != .unknown &&
   f.restoresOffsetAfterHeader != .unknown && f.splitsOversizedBuffer != .unknown && f.flushesAtCountBound.isYes &&
   f.closeErrorAborts.isYes && f.writeEntryReportsFlushError != .unknown && f.closeKeepsFileOnError != .unknown &&
-  f.chronKeepsWriterOnCloseError.isYes && f.zeroTailIsEOF != .unknown && readerApplies f
+  f.chronKeepsWriterOnCloseError.isYes && f.zeroTailIsEOF != .unknown && f.restorePrepends.isYes && readerApplies f
 
 /-- the defects the current failure handling exposes (each reproduced by the correspondence run;
     `failed_write_drops_entries` is the kernel-checked witness that refutes `Holds`) -/
